@@ -160,7 +160,7 @@ func condAlts(v ssa.Value, val bool, depth int) [][]Atom {
 		var out [][]Atom
 		for i, e := range x.Edges {
 			p := x.Block().Preds[i]
-			if c, isC := e.(*ssa.Const); isC && c.Value != nil {
+			if c, isC := e.(*ssa.Const); isC && c.Value != nil && c.Value.Kind() == constant.Bool {
 				if constant.BoolVal(c.Value) != val {
 					continue
 				}
@@ -385,19 +385,50 @@ func (f *Flow) liveInto(b *ssa.BasicBlock, i int) bool {
 func (f *Flow) Nilness(v ssa.Value) int { return f.nilness(v, map[ssa.Value]bool{}) }
 
 func (f *Flow) nilness(v ssa.Value, seen map[ssa.Value]bool) int {
-	if v == nil || seen[v] {
+	if v == nil {
+		return 0
+	}
+	if IsNilConst(v) {
+		return -1 // before the cycle check: one constant object may arrive on several edges
+	}
+	if seen[v] {
 		return 0
 	}
 	seen[v] = true
-	if IsNilConst(v) {
-		return -1
-	}
 	if f.nonNil[v] {
 		return 1
 	}
 	switch x := v.(type) {
 	case *ssa.Call:
 		// an error wrapping a known non-nil error, or built by a constructor, is non-nil (NonNil below); other calls unknown
+		// errors.Join(a, b, ...) is non-nil as soon as one operand is, nil when all are
+		if cal := x.Call.StaticCallee(); cal != nil && cal.Pkg != nil && cal.Pkg.Pkg.Path() == "errors" && cal.Name() == "Join" && len(x.Call.Args) == 1 {
+			if sl, ok := x.Call.Args[0].(*ssa.Slice); ok {
+				if al, isAl := sl.X.(*ssa.Alloc); isAl && al.Referrers() != nil {
+					allNil, n := true, 0
+					for _, r := range *al.Referrers() {
+						ia, isIA := r.(*ssa.IndexAddr)
+						if !isIA || ia.Referrers() == nil {
+							continue
+						}
+						for _, rr := range *ia.Referrers() {
+							if st, isSt := rr.(*ssa.Store); isSt && st.Addr == ssa.Value(ia) {
+								n++
+								switch f.nilness(st.Val, seen) {
+								case 1:
+									return 1
+								case 0:
+									allNil = false
+								}
+							}
+						}
+					}
+					if allNil && n > 0 {
+						return -1
+					}
+				}
+			}
+		}
 	case *ssa.Phi:
 		res, n := 0, 0
 		for i, e := range x.Edges {
@@ -450,10 +481,13 @@ func (f *Flow) nilness(v ssa.Value, seen map[ssa.Value]bool) int {
 
 // truth evaluates a branch condition: (value, known).
 func (f *Flow) truth(v ssa.Value, seen map[ssa.Value]bool) (bool, bool) {
-	if seen[v] {
-		return false, false
+	if _, isPhi := v.(*ssa.Phi); isPhi {
+		// only phis can form cycles; a constant (one shared object) may legitimately arrive on several edges
+		if seen[v] {
+			return false, false
+		}
+		seen[v] = true
 	}
-	seen[v] = true
 	if f.assume != nil {
 		if t, k := f.assume(v); k {
 			return t, true
@@ -629,7 +663,12 @@ func ControlConds(b *ssa.BasicBlock) []Cond {
 			}
 		}
 	}
+	seenVal := map[ssa.Value]bool{}
 	viaPhi = func(v ssa.Value, depth int) {
+		if v == nil || seenVal[v] || depth > 12 {
+			return
+		}
+		seenVal[v] = true
 		switch t := v.(type) {
 		case *ssa.UnOp:
 			viaPhi(t.X, depth)
@@ -687,4 +726,53 @@ func (f *Flow) Resolve(v ssa.Value) ssa.Value {
 		v = only
 	}
 	return v
+}
+
+// NilCanReach reports whether, within this flow, the returned value rv of ret can be the constant nil: a live phi edge
+// carries nil, or (for a result held in a local cell) a store of nil that lies in the flow can reach the return. Used
+// with a flow started where an error is known non-nil: "can that error have been cleared by the time we return?".
+// origin is the instruction the flow logically starts at (stores that cannot be reached from it are ignored).
+func (f *Flow) NilCanReach(rv ssa.Value, ret *ssa.Return, origin ssa.Instruction) bool {
+	seen := map[ssa.Value]bool{}
+	var walk func(v ssa.Value, depth int) bool
+	walk = func(v ssa.Value, depth int) bool {
+		if v == nil || seen[v] || depth > 8 {
+			return false
+		}
+		seen[v] = true
+		if IsNilConst(v) {
+			return true
+		}
+		switch x := v.(type) {
+		case *ssa.Phi:
+			if !f.Reached[x.Block()] {
+				return false
+			}
+			for i, e := range x.Edges {
+				if f.liveInto(x.Block(), i) && walk(e, depth+1) {
+					return true
+				}
+			}
+		case *ssa.UnOp:
+			if al, ok := x.X.(*ssa.Alloc); ok && x.Op == token.MUL && al.Referrers() != nil {
+				for _, r := range *al.Referrers() {
+					st, isSt := r.(*ssa.Store)
+					if !isSt || st.Addr != ssa.Value(al) || !f.Reached[st.Block()] {
+						continue
+					}
+					if origin != nil && !CanReach(origin, st) {
+						continue
+					}
+					if !CanReach(st, ret) {
+						continue
+					}
+					if walk(st.Val, depth+1) {
+						return true
+					}
+				}
+			}
+		}
+		return false
+	}
+	return walk(rv, 0)
 }
